@@ -44,12 +44,19 @@ func c03Compressed(w *core.W, s string, n model.Name, valid bool, kind string, w
 	tail := n[1:].Pres()
 	buf := make([]byte, 1400)
 	cm := map[string]int{}
-	var off1, off2 int
-	var err1, err2 error
+	var off1, off2, off3 int
+	var err1, err2, err3 error
 	if w.Guard("PackDomainName(compress)", wit, func() {
-		off1, err1 = dns.PackDomainName(tail, buf, 12, cm, true)
+		// the parent stands where a message's first name stands, at the very start of a bare buffer
+		// (PackDomainName and PackRR are exported: offset 0 is a target like any other) or somewhere else
+		start := []int{12, 0, 1, 300}[(len(s)+len(n))%4]
+		w.Cover("compressed_pack_start_offset", fmt.Sprint(start))
+		off1, err1 = dns.PackDomainName(tail, buf, start, cm, true)
 		if err1 == nil {
 			off2, err2 = dns.PackDomainName(s, buf, off1, cm, true)
+		}
+		if err1 == nil && err2 == nil {
+			off3, err3 = dns.PackDomainName(s, buf, off2, cm, true) // once more: a pointer to the whole name
 		}
 	}) {
 		return
@@ -71,6 +78,13 @@ func c03Compressed(w *core.W, s string, n model.Name, valid bool, kind string, w
 	}
 	if len(ptrs) > 0 {
 		w.Count("compressed_packs_with_pointer", 1)
+	}
+	if err3 != nil {
+		w.Violation("C03/compressed-pack-octets/"+kind, fmt.Sprintf("PackDomainName(%q) with compression, a second time into the same buffer: %v", s, err3), wit)
+		return
+	}
+	if got, _, _, derr := model.DecodeName(buf[:off3], off2); derr != nil || !got.Equal(n) {
+		w.Violation("C03/compressed-pack-octets/"+kind, fmt.Sprintf("PackDomainName(%q) with compression, a second time into the same buffer, produced %s which decodes to %v (err %v)", s, hx(buf[off2:off3]), got, derr), wit)
 	}
 }
 
